@@ -27,6 +27,9 @@ type World struct {
 	seq       uint64                                                                   // global event sequence number
 	hookFn    func(c *column.Collection, latch *smutex.SMutex128, p uint8, arg uint32) // extra per-world hook bookkeeping
 	conc      *concState
+	ttl       *ttlState
+	raceSched []int16                                                     // schedule taken by the race-mode scheduler
+	extra     []*Violation                                                // further race reports of the same run
 	readyFn   func(c *column.Collection, p uint8, arg uint32) func() bool // extra enabledness condition for the parking thread
 	reserves  map[int]int                                                 // number of offsets reserved so far, per thread
 	avoid     map[string]bool                                             // known-finding triggers this run steers around (Case.Cfg.Avoid)
@@ -131,6 +134,10 @@ func (w *World) onHook(c *column.Collection, latch *smutex.SMutex128, p uint8, a
 	}
 	if w.hookFn != nil {
 		w.hookFn(c, latch, p, arg)
+	}
+	if s := w.sim; s != nil && s.cur == nil && s.bubble && !s.inspecting {
+		s.foreignArrive(Point{Kind: p, Coll: c, Latch: latch, Arg: arg})
+		return
 	}
 	if s := w.sim; s != nil && s.cur != nil {
 		pt := Point{Kind: p, Coll: c, Latch: latch, Arg: arg}
